@@ -16,6 +16,9 @@ func genAtomicity() {
 		fn          string
 		conditional bool
 		outerUses   []string
+		cacheLoop   string // range expression of the innermost loop around the CacheContext call ("" = not in a loop)
+		commitLoop  string // … around the commit call
+		guarded     bool   // the commit follows, in its block, an `if … err != nil { … continue / return }`
 		deferred    bool // the commit sits in a deferred closure (so it also runs while a panic unwinds)
 		panicGuard  bool // that closure tests recover() before the commit and re-panics
 	}
@@ -72,6 +75,48 @@ func genAtomicity() {
 				}
 				return true
 			})
+			// loops around the CacheContext call and around the commit; error guard in front of the commit
+			var walkLoops func(n ast.Node, loop string)
+			walkLoops = func(n ast.Node, loop string) {
+				ast.Inspect(n, func(x ast.Node) bool {
+					switch st := x.(type) {
+					case *ast.RangeStmt:
+						walkLoops(st.Body, src(st.X))
+						return false
+					case *ast.ForStmt:
+						walkLoops(st.Body, "for")
+						return false
+					case *ast.FuncLit:
+						return false
+					case *ast.AssignStmt:
+						if x == after {
+							r.cacheLoop = loop
+						}
+					case *ast.BlockStmt:
+						for i, b := range st.List {
+							es, ok := b.(*ast.ExprStmt)
+							if !ok || src(es.X) != commitVar+"()" {
+								continue
+							}
+							r.commitLoop = loop
+							for _, prev := range st.List[:i] {
+								if is, ok := prev.(*ast.IfStmt); ok && strings.Contains(src(is.Cond), "err != nil") && len(is.Body.List) > 0 {
+									switch last := is.Body.List[len(is.Body.List)-1].(type) {
+									case *ast.BranchStmt:
+										if last.Tok.String() == "continue" {
+											r.guarded = true
+										}
+									case *ast.ReturnStmt:
+										r.guarded = true
+									}
+								}
+							}
+						}
+					}
+					return true
+				})
+			}
+			walkLoops(fd.Body, "")
 			// commit inside `defer func() { … }()`: does the closure look at recover() BEFORE it commits?
 			for _, st := range fd.Body.List {
 				ds, ok := st.(*ast.DeferStmt)
@@ -126,10 +171,10 @@ func genAtomicity() {
 	sort.Slice(rows, func(i, j int) bool { return rows[i].fn < rows[j].fn })
 	var b strings.Builder
 	b.WriteString("namespace Paloma.Gen.Atomicity\n\n")
-	b.WriteString("structure Cached where\n  fn : String\n  conditionalCommit : Bool\n  outerContextUses : List String\n  deferredCommit : Bool\n  panicGuard : Bool\nderiving Repr\n\n")
+	b.WriteString("structure Cached where\n  fn : String\n  conditionalCommit : Bool\n  outerContextUses : List String\n  deferredCommit : Bool\n  panicGuard : Bool\n  cacheLoop : String\n  commitLoop : String\n  commitAfterErrorGuard : Bool\nderiving Repr\n\n")
 	b.WriteString("def cachedFunctions : List Cached := [\n")
 	for i, r := range rows {
-		fmt.Fprintf(&b, "  { fn := %s, conditionalCommit := %v, outerContextUses := %s, deferredCommit := %v, panicGuard := %v }", leanStr(r.fn), r.conditional, leanStrList(r.outerUses), r.deferred, r.panicGuard)
+		fmt.Fprintf(&b, "  { fn := %s, conditionalCommit := %v, outerContextUses := %s, deferredCommit := %v, panicGuard := %v, cacheLoop := %s, commitLoop := %s, commitAfterErrorGuard := %v }", leanStr(r.fn), r.conditional, leanStrList(r.outerUses), r.deferred, r.panicGuard, leanStr(r.cacheLoop), leanStr(r.commitLoop), r.guarded)
 		if i < len(rows)-1 {
 			b.WriteString(",")
 		}
